@@ -242,15 +242,17 @@ func orderUsesOK(e *Env, v ssa.Value, body map[*ssa.BasicBlock]bool, seen map[ss
 	}
 	// a normaliser applied to v (in place) makes later uses safe if it dominates them
 	var norm []ssa.Instruction
-	collectNorm := func(val ssa.Value) {
+	var collectNorm func(val ssa.Value)
+	collectNorm = func(val ssa.Value) {
 		for _, ref := range *val.Referrers() {
 			if c, ok := ref.(*ssa.Call); ok {
 				if idx, ok := normalisers[prov.CalleeName(&c.Call)]; ok && idx < len(c.Call.Args) && c.Call.Args[idx] == val {
 					norm = append(norm, c)
 				}
-				if mi, ok := ref.(*ssa.MakeInterface); ok {
-					_ = mi
-				}
+			}
+			// sort.Slice(x any, less): the slice travels inside an interface value
+			if mi, ok := ref.(*ssa.MakeInterface); ok && mi.X == val {
+				collectNorm(mi)
 			}
 		}
 	}
@@ -280,6 +282,21 @@ func orderUsesOK(e *Env, v ssa.Value, body map[*ssa.BasicBlock]bool, seen map[ss
 			continue
 		}
 		switch x := ref.(type) {
+		case *ssa.MakeInterface:
+			onlyNorm := x.Referrers() != nil && len(*x.Referrers()) > 0
+			for _, r2 := range *x.Referrers() {
+				c, ok := r2.(*ssa.Call)
+				if !ok {
+					onlyNorm = false
+					break
+				}
+				if idx, ok := normalisers[prov.CalleeName(&c.Call)]; !ok || idx >= len(c.Call.Args) || c.Call.Args[idx] != ssa.Value(x) {
+					onlyNorm = false
+				}
+			}
+			if onlyNorm {
+				continue
+			}
 		case *ssa.Call:
 			name := prov.CalleeName(&x.Call)
 			if idx, ok := normalisers[name]; ok && idx < len(x.Call.Args) && x.Call.Args[idx] == v {
@@ -341,6 +358,20 @@ func orderUsesOK(e *Env, v ssa.Value, body map[*ssa.BasicBlock]bool, seen map[ss
 				}
 			}
 		case *ssa.MakeClosure:
+			// the comparison function handed to the normaliser itself
+			// (sort.Slice(s, func(i, j int) bool { return s[i] < s[j] })) reads the
+			// slice while it is being sorted: not an order-sensitive use
+			isLess := false
+			for _, r2 := range *x.Referrers() {
+				if c, ok := r2.(*ssa.Call); ok {
+					if _, ok := normalisers[prov.CalleeName(&c.Call)]; ok && len(c.Call.Args) == 2 && c.Call.Args[1] == ssa.Value(x) {
+						isLess = true
+					}
+				}
+			}
+			if isLess {
+				continue
+			}
 			// captured by a closure: uses inside the closure
 			if cf, ok := x.Fn.(*ssa.Function); ok {
 				for i, bnd := range x.Bindings {
